@@ -31,15 +31,15 @@ for _nd, _g in ((1, 1048576), (2, 64)):
 _TTUS = ['src/Mesh/MeshETurbo.cpp', 'src/Mesh/Delaunay.cpp', 'src/Basic/Grid.cpp', 'src/Basic/Indirection.cpp', 'src/Basic/Utilities.cpp', 'src/Basic/AStringable.cpp']
 for _nd, _nxq, _nxt, _tiers in ((1, 4, 8, ('quick', 'thorough')), (2, 3, 4, ('quick', 'thorough')), (3, 3, 4, ('quick', 'thorough'))):
     K('C15.b.%d' % _nd, property='C15', engine='symex', harness='C15/turbo.cpp',
-      entries=['k_turbo_apex'] + (['k_turbo_cell'] if _nd <= 2 else []), tus=_TTUS, tiers=_tiers,
+      entries=['k_turbo_apex', 'k_turbo_cell'], tus=_TTUS, tiers=_tiers,
       defines={'all': dict({'VF_ND': _nd}, **({'VF_NXFIXED': 1} if _nd == 3 else {})), 'quick': {'VF_NX': _nxq}, 'thorough': {'VF_NX': _nxt}},
-      bounds={'quick': ('%d-D grid, nx[d] = %d in every direction, every mesh rank, no mask' if _nd == 3 else
+      bounds={'quick': ('%d-D grid, nx[d] = %d in every direction, every mesh rank, no mask; tiling: every real point of the open unit cube (six tetrahedra)' if _nd == 3 else
                         '%d-D grid, every nx[d] in [2, %d] (symbolic), every mesh rank, with and without polarisation, no mask; tiling: every real point of the open unit cell') % (_nd, _nxq),
               'thorough': ('%d-D grid, nx[d] = %d in every direction' if _nd == 3 else '%d-D grid, every nx[d] in [2, %d]') % (_nd, _nxt)},
       timeout_ms={'quick': 120000, 'thorough': 900000}, validate={'quick': 100, 'thorough': 200}, validate_doubles='dyadic',
       what='MeshETurbo::_getGridFromMesh, getApex, _getPolarized, _setNumberElementPerCell, getNMeshes, getNApices, MSS, Grid::rankToIndice/indiceToRank, Indirection::getRToA/getAToR: '
-           'mesh rank <-> (cell, case) one-to-one; every apex of a mesh is a corner of its own cell; the simplices of the MSS table tile the unit cell (1-D, 2-D)',
-      out='masked grids / masked meshes (non-identity Indirection); tiling in 3-D; rotation; coordinates',
+           'mesh rank <-> (cell, case) one-to-one; every apex of a mesh is a corner of its own cell; the simplices of the MSS table tile the unit cell (1-D, 2-D, 3-D)',
+      out='masked grids / masked meshes (non-identity Indirection); rotation; coordinates',
       assumptions=['no selection: both Indirection members are the identity (empty arrays)'],
       stubs=['MeshETurbo object is raw storage: AMesh::_nDim, _grid._nDim, _grid._nx, _nPerCell (by the real _setNumberElementPerCell), _isPolarized, '
              '_meshIndirect/_gridIndirect (_defined=false, _mode=0, empty _vecRToA/_vecAToR) initialised by the harness',
